@@ -38,6 +38,17 @@ def _call( f, args, kwargs ):
         raise Raises( '%s: stand-in call: %s' % ( type( exc ).__name__, exc ))
 
 
+def _args( args, env ):
+    """the folded positional arguments of a call, starred ones spread"""
+    out = []
+    for a in args:
+        if isinstance( a, ast.Starred ):
+            out.extend( list( fold( a.value, env )))
+        else:
+            out.append( fold( a, env ))
+    return out
+
+
 def _standin( func, env ):
     """is the dotted callee a stand-in the rule put into the environment ( it then takes precedence over any built-in evaluation )"""
     from .core import dotted as _dotted
@@ -136,7 +147,7 @@ def fold( e, env=None ):
             base = None
         if isinstance( base, ( str, bytes )):
             try:
-                return getattr( base, e.func.attr )( *[ fold( a, env ) for a in e.args ] )
+                return getattr( base, e.func.attr )( *_args( e.args, env ) )
             except NoFold:
                 raise
             except Exception as exc:
@@ -147,7 +158,7 @@ def fold( e, env=None ):
         except NoFold:
             base = None
         if isinstance( base, dict ):
-            return base.get( *[ fold( a, env ) for a in e.args ] )
+            return base.get( *_args( e.args, env ) )
     if isinstance( e, ast.Call ) and isinstance( e.func, ast.Attribute ) and e.func.attr in ( 'pop', 'setdefault' ) and not e.keywords and e.args and env is not None \
        and not _standin( e.func, env ):
         # the two mutating lookups of a mapping / list the cell owns ( a work-list that is consumed ): performed on the cell's own object
@@ -157,7 +168,7 @@ def fold( e, env=None ):
             base = None
         if isinstance( base, ( dict, list )) and ( e.func.attr == 'pop' or isinstance( base, dict )):
             try:
-                return getattr( base, e.func.attr )( *[ fold( a, env ) for a in e.args ] )
+                return getattr( base, e.func.attr )( *_args( e.args, env ) )
             except NoFold:
                 raise
             except Exception as exc:
@@ -177,7 +188,7 @@ def fold( e, env=None ):
         for key in ( e.func.id, 'call:' + e.func.id ):
             f_ = _env_get( env, key )
             if f_ is not NoFold and callable( f_ ):
-                return _call( f_, [ fold( a, env ) for a in e.args ], { k.arg: fold( k.value, env ) for k in e.keywords } )
+                return _call( f_, _args( e.args, env ), { k.arg: fold( k.value, env ) for k in e.keywords } )
     if isinstance( e, ast.Call ) and isinstance( e.func, ast.Name ) and e.func.id == 'dict' and not e.args and all( k.arg for k in e.keywords ):
         return { k.arg: fold( k.value, env ) for k in e.keywords }
     if isinstance( e, ast.Call ) and isinstance( e.func, ast.Attribute ) and env is not None and all( k.arg for k in e.keywords ):
@@ -187,14 +198,14 @@ def fold( e, env=None ):
         if d_ is not None:
             f_ = _env_get( env, d_ )
             if f_ is not NoFold and callable( f_ ):
-                return _call( f_, [ fold( a, env ) for a in e.args ], { k.arg: fold( k.value, env ) for k in e.keywords } )
+                return _call( f_, _args( e.args, env ), { k.arg: fold( k.value, env ) for k in e.keywords } )
     if isinstance( e, ast.Call ) and isinstance( e.func, ast.Attribute ) and env is not None and all( k.arg for k in e.keywords ):
         try:
             base_ = fold( e.func.value, env )
         except NoFold:
             base_ = None
         if isinstance( base_, _Record ) and callable( getattr( base_, e.func.attr, None )):
-            return _call( getattr( base_, e.func.attr ), [ fold( a, env ) for a in e.args ], { k.arg: fold( k.value, env ) for k in e.keywords } )
+            return _call( getattr( base_, e.func.attr ), _args( e.args, env ), { k.arg: fold( k.value, env ) for k in e.keywords } )
     if isinstance( e, ast.Call ) and isinstance( e.func, ast.Name ) and e.func.id in _SAFE_BUILTINS and _SAFE_BUILTINS[e.func.id] is not None and not e.keywords:
         args = []
         for a in e.args:
@@ -208,7 +219,7 @@ def fold( e, env=None ):
             raise Raises( '%s: %s' % ( type( exc ).__name__, exc ))
     if isinstance( e, ast.Call ) and isinstance( e.func, ast.Attribute ) and e.func.attr == 'format' and isinstance( e.func.value, ast.Constant ) and isinstance( e.func.value.value, str ):
         try:
-            return e.func.value.value.format( *[ fold( a, env ) for a in e.args ], **{ k.arg: fold( k.value, env ) for k in e.keywords } )
+            return e.func.value.value.format( *_args( e.args, env ), **{ k.arg: fold( k.value, env ) for k in e.keywords } )
         except NoFold:
             raise
         except Exception as exc:
@@ -465,6 +476,19 @@ def run_block( stmts, env, ignore_calls=(), stop_at_yield=True ):
                 if out.kind != 'fall':
                     return out
                 continue
+            if out.kind == 'raise' and st.handlers:
+                # the body ended by raise / a failed assert: the handler that names it ( or a catch-all ) takes over
+                hs = [ h for h in st.handlers if h.type is None or str( out.value ) in ast.unparse( h.type ) or ast.unparse( h.type ) in ( 'Exception', 'BaseException' ) ]
+                if hs:
+                    out2 = run_block( hs[0].body, env, ignore_calls, stop_at_yield )
+                    if out2.kind == 'raise' and out2.value == 'raise':
+                        out2 = out					# a bare `raise` re-raises what was caught
+                    if out2.kind != 'fall':
+                        return out2
+                    out3 = run_block( st.finalbody, env, ignore_calls, stop_at_yield )
+                    if out3.kind != 'fall':
+                        return out3
+                    continue
             if out.kind != 'fall':
                 return out
             for part in ( st.orelse, st.finalbody ):
